@@ -32,6 +32,10 @@ META = {
 }
 
 
+# lemmas over the contracts, checked by Lean 4 + Mathlib on every run (lean/Lemmas.lean, rverif/lemmas.py)
+LEMMAS = ["rotated_cone_log"]
+
+
 def SOURCES():
     d = c06.SOURCES()
     d["rsome.lp:IPCone.to_pot"] = source_info(lp.IPCone.to_pot)
